@@ -98,6 +98,10 @@ class Prop(PropBase):
         heap = L.coq_heap(case['heap'])
         ctx = L.coq_ns(case_ctx(case))
         env = f'{L.coq_mods(L.case_mods(case))} std_builtins {L.coq_list([L.coq_str(m) for m in loaded0])}'
+        if case['kind'] == 'eval' and case.get('steps'):
+            acts = L.coq_list([f'(AImport {L.coq_list([L.coq_stmt(x) for x in st[1]])})' if st[0] == 'import'
+                               else f'(AEval {L.coq_expr(st[1])})' for st in case['steps']])
+            return f'(session_case_ld {env} {n0} {heap} {ctx} {acts})'
         if case['kind'] == 'eval':
             imports = L.coq_list([L.coq_stmt(s) for s in case.get('imports', [])])
             exprs = L.coq_list([L.coq_expr(e) for e in case['exprs']])
@@ -151,10 +155,6 @@ class Prop(PropBase):
                                                     f'{obs["pyimport_error"]}; plain Python imports it fine',
                                 'pyimport-raises'))
             case_keys = {k for k, _ in case['ctx']}
-            for k in kb:
-                if k not in case_keys:
-                    out.append(fail('imports-beside-context', f'the pyimport step put {k!r} into context',
-                                    'import-in-context'))
             for k in added + rebound:
                 verb = 'added' if k in added else 'rebound'
                 if k in top:
@@ -164,7 +164,8 @@ class Prop(PropBase):
                 elif k == '__builtins__':
                     out.append(fail('eval-no-leak', f'{src!r} put __builtins__ into context', 'builtins-in-context'))
                 elif k in imported:
-                    out.append(fail('eval-no-leak', f'{src!r} {verb} imported name {k!r} in context', 'import-in-context'))
+                    out.append(fail('imports-beside-context', f'pyimport / {src!r} {verb} imported name {k!r} in context',
+                                    'import-in-context'))
                 else:
                     out.append(fail('eval-no-leak', f'evaluating {src!r} {verb} context key {k!r}',
                                     'eval-changes-context'))
@@ -175,18 +176,19 @@ class Prop(PropBase):
             # := inside a comprehension of the same expression reads back (CPython makes that a
             # STORE_GLOBAL into the raw dict part, which LOAD_GLOBAL on a dict subclass does not
             # consult) — such expressions are left to the model correspondence, not compared here.
-            seen_top = False
+            seen_top = set()
             for i, (mine, want) in enumerate(zip(obs['plain_results'], obs['plain_eval'])):
                 a, b = L.module_level_walrus(case['exprs'][i])
                 calls_id = any(x[0] == 'call' and x[1] == ['name', 'id'] for x in L.walk(case['exprs'][i]))
                 if mine != want and not calls_id and not b:      # id() of two copies differs by nature
                     reads_import = any(x[0] == 'name' and x[1] in imported and x[1] not in case_keys
                                        for x in L.walk(case['exprs'][i]))
-                    fp = ('walrus-leaks-into-context' if seen_top
+                    reads_leaked = any(x[0] == 'name' and x[1] in seen_top for x in L.walk(case['exprs'][i]))
+                    fp = ('walrus-leaks-into-context' if reads_leaked
                           else 'imported-name-not-readable' if reads_import else 'differs-from-plain-eval')
                     out.append(fail('reads-as-plain-variables',
                                     f'{obs["src"][i]!r} gave {mine!r}; plain eval over dict(context) gives {want!r}', fp))
-                seen_top = seen_top or bool(a)
+                seen_top |= a
         else:
             block = case['block']
             targets = set(L.save_targets(block))
@@ -366,6 +368,11 @@ class Prop(PropBase):
                 feats.add('import:from-dotted')
         if case.get('pkg'):
             feats.add('throwaway-package')
+        if case.get('steps'):
+            feats.add(f"pyimport-steps:{sum(1 for st in case['steps'] if st[0] == 'import')}")
+            names = [L.stmt_binding_name(x) for st in case['steps'] if st[0] == 'import' for x in st[1]]
+            if len(names) != len(set(names)):
+                feats.add('pyimport-rebinds-name')
         if case.get('imports'):
             feats.add('pyimport')
             if any(L.stmt_binding_name(s) in {k for k, _ in case['ctx']} for s in case['imports']):
